@@ -76,7 +76,11 @@ def main():
         rec["confirmed"] = confirmed
         # our check
         sh(["git", "apply", patch], wt)
+        evf = os.path.join(VERIF, "evidence", pid + ".json")   # evidence of a run against a mutated tree must not stay
+        saved = open(evf).read() if os.path.exists(evf) else None
         rc, o = sh(["./check", pid, "--tier", tier], VERIF, env=dict(os.environ, VERIF_REPO=wt), timeout=3600)
+        if saved is not None:
+            open(evf, "w").write(saved)
         lines = [l for l in o.split("\n") if l.startswith("VIOLATION") or l.startswith("KNOWN-FINDING") or "UNDISCHARGED" in l or l.startswith("suite ") or l.startswith("proof:")]
         rec["check_cmd"] = "VERIF_REPO=<scratch worktree with patch> ./check %s --tier %s" % (pid, tier)
         rec["check_rc"] = rc
